@@ -136,7 +136,7 @@ def rebuild(x):
     return Vector(list(x))
 
 
-def _coh_body(steps, poss):
+def _coh_body(steps, poss, view_first=False):
     v = Vector([1, 2, 3], name='v')
     t = Table({'a': [4, 5, 6], 'b': [7, 8, 9]})
     view = t.cols()[1]
@@ -185,7 +185,10 @@ def _coh_body(steps, poss):
         if st == 't.a=vec':
             pass
         # every object is asked twice, in both orders (a table asked after its column view may behave differently from one asked before)
-        for nm, o in list(live.items()) + list(reversed(list(live.items()))):
+        order = list(live.items())
+        if view_first:
+            order = list(reversed(order))       # the column view (and derived objects) are asked before the table
+        for nm, o in order + list(reversed(order)):
             fresh = rebuild(o).fingerprint()
             got = o.fingerprint()
             if got != fresh:
@@ -196,7 +199,7 @@ def _coh_body(steps, poss):
     return True
 
 
-def h_coherent(s0: int, s1: int, s2: int, p0: int, p1: int, p2: int) -> bool:
+def h_coherent(s0: int, s1: int, s2: int, p0: int, p1: int, p2: int, view_first: bool) -> bool:
     """
     pre: 0 <= s0 < len(STEPS) and 0 <= s1 < len(STEPS) and 0 <= s2 < len(STEPS) and 0 <= p0 <= 2 and 0 <= p1 <= 2 and 0 <= p2 <= 2
     pre: H.fix(s0=s0)
@@ -209,7 +212,7 @@ def h_coherent(s0: int, s1: int, s2: int, p0: int, p1: int, p2: int) -> bool:
     RS = list(range(len(STEPS)))
     steps = [STEPS[H.among(RS, s)] for s in (s0, s1, s2)][:depth]
     poss = [H.among([0, 1, 2], p) for p in (p0, p1, p2)][:depth]
-    if not H.concrete(_coh_body, steps, poss): return False
+    if not H.concrete(_coh_body, steps, poss, True if view_first else False): return False
     return H.ok()
 
 
@@ -238,9 +241,9 @@ def obligations(tier):
                     smoke=[[0, 1, 0], [6, 8, 2]]))
     for s0 in range(len(STEPS)):
         obs.append(dict(name='coherent[H=2,first=%s]' % STEPS[s0], fn='h_coherent', config={'s0': s0, 'H': 2}, budget=90 if q else 300,
-                        bounds='first step fixed per job, every second step of the 26-step alphabet, every position; vector, table and a live column view compared with freshly built objects after every step',
-                        smoke=[[s0, 0, 0, 1, 1, 0], [s0, 12, 0, 0, 2, 0]]))
+                        bounds='first step fixed per job, every second step of the 26-step alphabet, every position; vector, table, a live column view and derived objects compared with freshly built objects after every step, asked in both orders (solver-chosen which first)',
+                        smoke=[[s0, 0, 0, 1, 1, 0, False], [s0, 12, 0, 0, 2, 0, True]]))
         if not q:
             obs.append(dict(name='coherent[H=3,first=%s]' % STEPS[s0], fn='h_coherent', config={'s0': s0, 'H': 3}, budget=1200,
-                            bounds='depth 3', smoke=[[s0, 1, 12, 1, 1, 0]]))
+                            bounds='depth 3', smoke=[[s0, 1, 12, 1, 1, 0, True]]))
     return obs
